@@ -71,6 +71,7 @@ type crashPlan struct {
 	Kind   string `json:"kind"`    // kill_client | kill_server | sever | sever_rst | close_client | close_server | close_both
 	AtStep int64  `json:"at_step"` // scheduling steps after the sessions were established (negative: absolute step, during the handshake)
 	Twice  bool   `json:"twice,omitempty"`
+	Opener bool   `json:"opener,omitempty"` // a client thread keeps opening (and closing) streams while the fault strikes
 }
 
 type sessScenario struct{}
@@ -412,6 +413,7 @@ func (sessScenario) Gen(r *Rng, tier string, opts map[string]string) interface{}
 		if v := opts["crash_kind"]; v != "" {
 			c.Kind = v
 		}
+		c.Opener = r.Chance(1, 2)
 		p.Crash = c
 	}
 	// neighbour: exhaustion windows and scribbling
@@ -1001,6 +1003,9 @@ func (w *sessWorld) main(dir string) {
 			w.spawn(w.pc, fmt.Sprintf("CR%d", ss.idx), func() { w.reader(ss, 1) })
 		}
 	}
+	if p.Crash != nil && p.Crash.Opener {
+		w.spawn(w.pc, "opener", w.opener)
+	}
 	if len(p.Neighbor) > 0 {
 		w.spawn(w.pc, "neighbor", func() { w.neighbor(p.Neighbor) })
 	}
@@ -1201,6 +1206,34 @@ func (w *sessWorld) spawn(p *simrt.Proc, name string, f func()) {
 		}
 		f()
 	})
+}
+
+// opener (C14: "all later calls fail", "Close is safe to call concurrently with traffic"): OpenStream keeps being
+// called on the client session across the fault; it returns a stream or an error, never neither, and never panics.
+func (w *sessWorld) opener() {
+	after := 0
+	for i := 0; i < 3000 && !simrt.Failed(); i++ {
+		st, err := w.cli.OpenStream()
+		if st == nil && err == nil {
+			w.fail("C14.open_nil", "OpenStream returned neither a stream nor an error (session closed: %v)", w.cli.shutdown == 1)
+			return
+		}
+		if st != nil {
+			_ = st.Close()
+		}
+		w.probe("opener_open")
+		if w.crashed {
+			if err != nil {
+				w.probe("opener_refused")
+			}
+			if after++; after > 20 {
+				return
+			}
+		}
+		if i%4 == 3 {
+			simrt.Sleep(time.Millisecond)
+		}
+	}
 }
 
 func (w *sessWorld) waitThreads(bound time.Duration) {
@@ -2254,7 +2287,7 @@ func (sessScenario) Sweep(plan interface{}, base *RunRecord) []interface{} {
 			b, _ := json.Marshal(plan)
 			var q sessPlan
 			_ = json.Unmarshal(b, &q)
-			q.Crash = &crashPlan{Kind: kind, AtStep: at, Twice: at%2 == 0}
+			q.Crash = &crashPlan{Kind: kind, AtStep: at, Twice: at%2 == 0, Opener: at%3 == 0}
 			out = append(out, &q)
 		}
 	}
